@@ -12,19 +12,28 @@
    to its next hold point or to its end; afterwards every request is let run to its end).  Per
    request the same observations, plus whether the hook process found its four output files empty
    when it started.  The model is the transition system of C14_ConcModel run under these moves;
-   every request is judged by C14_Spec.P against its own run (C14_ConcSpec.P_conc). *)
-From Verif Require Import Common C14_Model C14_Spec C14_ConcModel C14_ConcSpec.
+   every request is judged by C14_Spec.P against its own run (C14_ConcSpec.P_conc).
+
+   A third class, CCtx: hooks whose admission bindings carry `group` / `includeSnapshotsFrom` and that
+   have `kubernetes` bindings beside them; the hook process reads its binding context BEFORE it answers
+   (it answers as scripted only when it is shown the request, otherwise it denies with message 99); per
+   request the same observations as in class Case, plus what the hook process read in
+   $BINDING_CONTEXT_PATH (binding, type, keys of snapshots, groupName, review.request.uid).  The model is
+   C14_CtxModel.ctx_request; every request is judged by C14_CtxSpec.P_ctx. *)
+From Verif Require Import Common C14_Model C14_Spec C14_ConcModel C14_ConcSpec C14_CtxModel C14_CtxSpec.
 
 Definition req := (bytes * body * run * (answer * ran) * (bool * bool))%type.
 
 Inductive case :=
 | Case (hooks : list hook) (regs : list reg) (reqs : list req)
 | CConc (hooks : list hook) (regs : list reg) (reqs : list (req * bool)) (moves : list N)
+| CCtx (hooks : list phook) (regs : list reg) (reqs : list (req * option rendered))
 | CCrash.
 
 Inductive mobs :=
 | MObs (regs : list reg) (answers : list (answer * ran * (bool * bool)))
 | MConc (regs : list reg) (outs : list (option cout))
+| MCtx (regs : list reg) (outs : list ((answer * ran) * (bool * bool) * option rendered))
 | MCrash.
 
 Definition creq_of (x : req * bool) : creq :=
@@ -40,6 +49,9 @@ Definition model_obs (c : case) : mobs :=
   | CConc hooks _ reqs moves =>
     let rs := map creq_of reqs in
     MConc (model_regs hooks) (outs rs (moves_run hooks rs moves))
+  | CCtx hooks _ reqs =>
+    MCtx (model_regs (map strip hooks))
+         (map (fun x => match x with ((path, b, r, _, _), _) => ctx_request hooks path b r end) reqs)
   | CCrash => MCrash
   end.
 
@@ -81,6 +93,34 @@ Definition obs_eqb (a b : answer * ran * (bool * bool)) : bool :=
 Definition cout_eqb (a b : cout) : bool :=
   obs_eqb (fst a) (fst b) && Bool.eqb (snd a) (snd b).
 
+Definition rtype_eqb (a b : rtype) : bool :=
+  match a, b with
+  | RtAbsent, RtAbsent | RtValidating, RtValidating | RtMutating, RtMutating | RtConversion, RtConversion
+  | RtGroup, RtGroup | RtSchedule, RtSchedule | RtKubernetes, RtKubernetes => true
+  | _, _ => false
+  end.
+
+(* the keys of a JSON object are a set *)
+Definition set_eqb (a b : list N) : bool :=
+  forallb (fun k => mem_N k b) a && forallb (fun k => mem_N k a) b.
+
+Definition rendered_eqb (a b : rendered) : bool :=
+  bytes_eqb (r_binding a) (r_binding b) && rtype_eqb (r_type a) (r_type b)
+  && option_eqb set_eqb (r_snapshots a) (r_snapshots b)
+  && option_eqb N.eqb (r_group a) (r_group b) && option_eqb N.eqb (r_review a) (r_review b).
+
+Definition ctx_out_eqb (m : (answer * ran) * (bool * bool) * option rendered) (x : req * option rendered) : bool :=
+  match x with
+  | ((_, _, _, o, e), shown) => obs_eqb (fst (fst m), snd (fst m)) (o, e) && option_eqb rendered_eqb (snd m) shown
+  end.
+
+Fixpoint all2 {A B} (f : A -> B -> bool) (l : list A) (l' : list B) : bool :=
+  match l, l' with
+  | [], [] => true
+  | a :: r, b :: r' => f a b && all2 f r r'
+  | _, _ => false
+  end.
+
 Definition agrees (c : case) : bool :=
   match c, model_obs c with
   | Case _ regs reqs, MObs mregs answers =>
@@ -89,6 +129,8 @@ Definition agrees (c : case) : bool :=
   | CConc _ regs reqs _, MConc mregs os =>
     list_eqb reg_eqb mregs regs
     && list_eqb (option_eqb cout_eqb) os (map (fun x => Some (cout_of x)) reqs)
+  | CCtx _ regs reqs, MCtx mregs os =>
+    list_eqb reg_eqb mregs regs && all2 ctx_out_eqb os reqs
   | _, _ => false
   end.
 
@@ -100,6 +142,8 @@ Definition P_case (c : case) : bool :=
   | Case _ regs reqs => forallb (P_req regs) reqs
   | CConc _ regs reqs _ =>
     P_conc regs (map (fun x => (creq_of x, match x with ((_, _, _, o, _), _) => o end)) reqs)
+  | CCtx hooks regs reqs =>
+    forallb (fun x => match x with ((path, b, r, (a, who), _), shown) => P_ctx hooks regs path b r a who shown end) reqs
   | CCrash => false
   end.
 
